@@ -150,3 +150,206 @@ def c06(tier, seed):
     c.assumptions += ["iterator state is fully observable through as_slice/len, so covering every transition from every reachable (front, back) covers all histories up to the bound",
                       "harness elements (Tk) report clones and destructor runs faithfully"]
     return c.finish()
+
+
+# ---------------------------------------------------------------------------------------------
+# C05: a panicking destructor
+# ---------------------------------------------------------------------------------------------
+def teardown_fault_scripts(lens):
+    """Operations that drop elements internally, outside the iterator: array / box / vec-converted
+    teardown, the failure paths of try_from_iter and TryFrom<Vec>, remove out of bounds, each with
+    every choice of the single panicking element."""
+    out = []
+    for n in lens:
+        for pan in range(1, n + 1):
+            for kind in ("arr", "box"):
+                out.append({"case": "teardown", "ety": "tk", "fuse_drop": [pan], "steps": [{"op": "mk", "n": n, "kind": kind}, {"op": "release", "h": 1}],
+                            "d": {"op": "release", "kind": kind, "n": n, "pan": pan}})
+            # (remove out of bounds + panicking destructor would be a second panic while unwinding:
+            #  Rust aborts the process by design, outside the property)
+            # source yields n items, target wants n+1 (short) or n-1 (long): the pulled items are torn down
+            for tgt, nm in ((n + 1, "short"), (n - 1, "long")):
+                if tgt < 0:
+                    continue
+                for op in ("try_from_iter", "try_boxed_from_iter"):
+                    out.append({"case": "teardown", "ety": "tk", "fuse_drop": [pan],
+                                "steps": [{"op": op, "n": tgt, "okind": "box" if "boxed" in op else "arr", "script": [1] * n, "hint": [0, -1]}],
+                                "d": {"op": op, "path": nm, "n": tgt, "items": n, "pan": pan}})
+            for op, kind in (("arr_try_from_vec", "vec"), ("try_from_vec", "vec"), ("try_from_boxed_slice", "bslice"), ("arr_try_from_bslice", "bslice")):
+                out.append({"case": "teardown", "ety": "tk", "fuse_drop": [pan], "steps": [{"op": "mk", "n": n, "kind": kind}, {"op": op, "recv": [1], "arg": n + 1}],
+                            "d": {"op": op, "path": "wrong_len", "n": n, "pan": pan}})
+    return out
+
+
+@check("C05")
+def c05(tier, seed):
+    c = Check("C05", tier, seed)
+    binary = vlib.build_harness()
+    r = c.mc("MC_Iter", "MC_Iter_fq" if tier == "quick" else "MC_Iter_ft")
+    descs = dedupe([d for d in r["scenarios"] if d["pan"] > 0 and d["f"] < d["pan"] <= d["b"]])
+    scns = [iter_script(d, "C05") for d in descs]
+    c.cov["exhaustive"] = True
+    c.cov["bounds"] = {"N": "0..%d" % (4 if tier == "quick" else 6), "fault": "every choice of the single element whose destructor panics, every (front, back), every skip count 0..len+2"}
+    c.conform(binary, scns, "iter-faults")
+    c.conform(binary, teardown_fault_scripts([1, 2, 3] if tier == "quick" else [1, 2, 3, 4, 5, 8]), "teardown-faults")
+    if tier != "quick":
+        c.neg("MC_Iter", "NEG_Iter_nth")
+    c.assumptions += ["single fault: one destructor panics once (a second panic while unwinding aborts the process by Rust's rules and is outside the property)",
+                      "after a destructor panic the contract is lenient: leaks are allowed, a second drop or an observation of a dropped element never is"]
+    return c.finish()
+
+
+# ---------------------------------------------------------------------------------------------
+# functional operations: descriptor {op, form, n, panic_at} -> scripts over every receiver form
+# ---------------------------------------------------------------------------------------------
+def _mk(kind, n):
+    return {"op": "mk", "n": n, "kind": kind}
+
+
+def func_scripts(d, prop):
+    """Expands one mechanism-model scenario (op, by-value flags, n, crash index) into the concrete
+    receiver/argument forms of the public API: owned / & / &mut / Box."""
+    op, form, n, pa = d["op"], d["form"], d["n"], d.get("panic_at", -1)
+    out = []
+
+    def add(steps, **extra):
+        dd = dict(d)
+        dd.update(extra)
+        out.append({"case": op, "prop": prop, "ety": "tk", "steps": steps, "d": dd})
+
+    refs = ["ref", "mut"]
+    if op == "generate":
+        for okind in ("arr", "box"):
+            add([{"op": "generate", "n": n, "okind": okind, "panic_at": pa}], okind=okind)
+    elif op in ("map", "fold"):
+        if form[0]:
+            for pm in ([-1, 0] if op == "map" and pa < 0 else [-1]):
+                add([_mk("arr", n), {"op": op, "recv": [1], "form": ["own"], "panic_at": pa, "pass_mod": pm}], recv="own", pass_mod=pm)
+            add([_mk("box", n), {"op": op, "recv": [1], "form": ["own"], "panic_at": pa}], recv="box")
+        else:
+            for f in refs:
+                add([_mk("arr", n), {"op": op, "recv": [1], "form": [f], "panic_at": pa}], recv=f)
+    elif op == "zip":
+        fa = ["own"] if form[0] else refs
+        fb = ["own"] if form[1] else refs
+        for a in fa:
+            for b in fb:
+                for pm in ([-1, 1] if pa < 0 and (form[0] or form[1]) else [-1]):
+                    add([_mk("arr", n), _mk("arr", n), {"op": "zip", "recv": [1, 2], "form": [a, b], "panic_at": pa, "pass_mod": pm}], recv=a + "," + b, pass_mod=pm)
+        if form[0] and form[1]:
+            add([_mk("box", n), _mk("box", n), {"op": "zip", "recv": [1, 2], "form": ["own", "own"], "panic_at": pa}], recv="box,box")
+    return out
+
+
+def clone_default_scripts(lens, prop, faults):
+    out = []
+    for n in lens:
+        for kind in ("arr", "box"):
+            pans = list(range(1, n + 1)) if faults else [0]
+            for cp in pans:
+                s = {"case": "clone", "prop": prop, "ety": "tk", "steps": [_mk(kind, n), {"op": "clone", "recv": [1], "form": ["ref"]}],
+                     "d": {"op": "clone", "kind": kind, "n": n, "cpan": cp}}
+                if cp:
+                    s["fuse_clone"] = [cp]
+                out.append(s)
+            if not faults:
+                out.append({"case": "default", "prop": prop, "ety": "tk", "steps": [{"op": "default", "n": n, "okind": kind}],
+                            "d": {"op": "default", "kind": kind, "n": n}})
+    return out
+
+
+def iter_cb_fault_scripts(lens, prop):
+    """Iterator operations that call caller code: fold / rfold (closure panics at every call
+    index) and clone (Clone::clone of every remaining element panics), from every (front, back)."""
+    out = []
+    for n in lens:
+        for f in range(0, n + 1):
+            for b in range(f, n + 1):
+                ln = b - f
+                for k in range(ln):
+                    for op in ("iter_fold", "iter_rfold"):
+                        out.append(iter_script({"n": n, "f": f, "b": b, "op": op, "panic_at": k}, prop, followups=False))
+                    out.append(iter_script({"n": n, "f": f, "b": b, "op": "iter_clone", "cpan": f + 1 + k}, prop, followups=True))
+    return out
+
+
+def collect_scripts(lens, prop, faults, extra_hints=True):
+    """Sources for try_from_iter / from_iter and the boxed forms: every count 0..N+3, not fused
+    (Some after None), hints exact / loose / absent / lying either way; with `faults`, a source
+    that panics at every call index."""
+    out = []
+    for n in lens:
+        scripts = []
+        for cnt in range(0, n + 4):
+            scripts.append([1] * cnt)                     # cnt items then None forever
+            scripts.append([1] * cnt + [0, 1, 1])         # not fused: more items after the first None
+        hints = [None, [0, -1], [0, n + 5]]
+        if extra_hints:
+            hints += [[n, n], [n + 1, -1], [0, max(n - 1, 0)], [n + 2, n + 2], [0, 0], [1, 1]]
+        for sc in scripts:
+            for h in hints:
+                for op in ("try_from_iter", "from_iter", "try_boxed_from_iter", "boxed_from_iter"):
+                    st = {"op": op, "n": n, "okind": "box" if "boxed" in op else "arr", "script": sc}
+                    if h is not None:
+                        st["hint"] = h
+                    out.append({"case": op, "prop": prop, "ety": "tk", "steps": [st],
+                                "d": {"op": op, "n": n, "script": sc, "hint": h}})
+        if faults:
+            for cnt in range(0, n + 2):
+                for op in ("try_from_iter", "from_iter", "try_boxed_from_iter", "boxed_from_iter"):
+                    st = {"op": op, "n": n, "okind": "box" if "boxed" in op else "arr", "script": [1] * cnt + [2], "hint": [0, -1]}
+                    out.append({"case": op, "prop": prop, "ety": "tk", "steps": [st], "d": {"op": op, "n": n, "source_panics_at": cnt}})
+    return out
+
+
+@check("C08")
+def c08(tier, seed):
+    c = Check("C08", tier, seed)
+    binary = vlib.build_harness()
+    r = c.mc("MC_Build", "MC_Build_q" if tier == "quick" else "MC_Build_t")
+    descs = dedupe([d for d in r["scenarios"] if d["panic_at"] == -1])
+    big = [8, 97] if tier == "quick" else [8, 12, 16, 33, 97, 1024]
+    for d in list(descs):
+        if d["n"] == 1:
+            descs += [dict(d, n=n) for n in big]
+    scns = [s for d in descs for s in func_scripts(d, "C08")]
+    scns += clone_default_scripts([0, 1, 2, 3, 5] + big, "C08", False)
+    c.cov["exhaustive"] = True
+    c.cov["bounds"] = {"model N": "0..%d" % (4 if tier == "quick" else 6), "real-code N": sorted(set(d["n"] for d in descs)), "forms": "generate arr/box; map, fold: own/&/&mut/Box; zip: 9 stack forms + Box x Box; Clone, Default arr/box"}
+    c.conform(binary, scns, "order")
+    return c.finish()
+
+
+@check("C04")
+def c04(tier, seed):
+    c = Check("C04", tier, seed)
+    binary = vlib.build_harness()
+    r = c.mc("MC_Build", "MC_Build_q" if tier == "quick" else "MC_Build_t")
+    descs = dedupe([d for d in r["scenarios"] if d["panic_at"] >= 0])
+    big = [8, 97] if tier == "quick" else [8, 16, 97, 1024]
+    for d in list(descs):
+        if d["n"] == 1:
+            for n in big:
+                descs += [dict(d, n=n, panic_at=k) for k in sorted({0, 1, n // 2, n - 1})]
+    scns = [s for d in descs for s in func_scripts(d, "C04")]
+    small = [1, 2, 3, 4] if tier == "quick" else [1, 2, 3, 4, 5, 6]
+    scns += clone_default_scripts(small + [8], "C04", True)
+    scns += iter_cb_fault_scripts(small, "C04")
+    scns += collect_scripts([0, 1, 2, 3] if tier == "quick" else [0, 1, 2, 3, 4, 8], "C04", True, extra_hints=False)
+    c.cov["exhaustive"] = True
+    c.cov["bounds"] = {"model N": "0..%d" % (4 if tier == "quick" else 6), "crash points": "every callback index of every closure / Clone::clone / Iterator::next call"}
+    c.conform(binary, scns, "panics", nontrivial=lambda s: True)
+    if tier != "quick":
+        c.neg("MC_Build", "NEG_Build_consumer")
+        c.neg("MC_Build", "NEG_Build_builder")
+    return c.finish()
+
+
+@check("C07")
+def c07(tier, seed):
+    c = Check("C07", tier, seed)
+    binary = vlib.build_harness()
+    scns = collect_scripts([0, 1, 2, 3] if tier == "quick" else [0, 1, 2, 3, 4, 5, 8, 16], "C07", True)
+    c.cov["exhaustive"] = True
+    c.conform(binary, scns, "collect")
+    return c.finish()
